@@ -79,7 +79,7 @@ type Result struct {
 
 func (r Result) String() string {
 	s := r.Class.String()
-	if r.Alt != r.Class {
+	if r.Alt != r.Class && r.Alt != refmodel.OK {
 		s += "|" + r.Alt.String()
 	}
 	if r.Class == refmodel.OK {
